@@ -305,6 +305,18 @@ def r3_decoder(ctx, mi) -> None:
   fi = ci.methods['_to_parameter_value']
   g = cfgmod.CFG(fi.node)
   rd = flow.ReachingDefs(g)
+  # the same function with clipping switched on: edges that need `self._should_clip` to be false are removed
+  g_on = cfgmod.CFG(fi.node)
+  for tn in g_on.nodes:
+    if tn.kind == 'test':
+      t = unparse(tn.ast, 0)
+      drop = 'F' if t == 'self._should_clip' else 'T' if t in ('not self._should_clip',) else None
+      if drop:
+        for m_, lab in list(tn.succs):
+          if lab == drop:
+            tn.succs.remove((m_, lab))
+            m_.preds.remove((tn, lab))
+  rd_on = flow.ReachingDefs(g_on)
   n_ret = 0
   for n in g.nodes:
     if not (n.kind == 'stmt' and isinstance(n.ast, ast.Return)):
@@ -321,8 +333,14 @@ def r3_decoder(ctx, mi) -> None:
       if depth > 4:
         return False
       for x in ast.walk(e):
-        if isinstance(x, ast.Subscript) and unparse(x.value, 0).endswith('parameter_config.feasible_values'):
-          return True
+        if isinstance(x, ast.Subscript):
+          base = x.value
+          if isinstance(base, ast.Name):
+            ds = [d for d in rd.at(n, base.id) if d.kind == 'assign' and d.value is not None]
+            if len(ds) == 1:
+              base = ds[0].value
+          if unparse(base, 0).endswith('parameter_config.feasible_values'):
+            return True
       for nm in flow.names_in(e):
         for d in rd.at(n, nm):
           if d.kind == 'assign' and d.value is not None and from_feasible(d.value, depth + 1):
@@ -331,24 +349,65 @@ def r3_decoder(ctx, mi) -> None:
     if from_feasible(v):
       ctx.ok('R3', inst, n.ast, 'an element of parameter_config.feasible_values')
       continue
-    # (b) clipped float
-    clip_defs = []
+    # (b) clipped float: every definition that can reach the return is np.clip(v, lo, hi) with the two bounds of
+    # the *original* config, except definitions made only when clipping is switched off
+    def bound_index(e: ast.AST, at) -> Optional[int]:
+      """0/1 if `e` is bounds[0]/bounds[1] of self._parameter_config (through np.float64(..) / a tuple-unpacked local)."""
+      if isinstance(e, ast.Call) and len(e.args) == 1 and (dotted(e.func) or '').rsplit('.', 1)[-1] in ('float64', 'float32', 'float', 'asarray'):
+        return bound_index(e.args[0], at)
+      if isinstance(e, ast.Subscript) and unparse(e.value, 0) == 'self._parameter_config.bounds' and isinstance(e.slice, ast.Constant):
+        return e.slice.value if e.slice.value in (0, 1) else None
+      if isinstance(e, ast.Name):
+        ds = [d for d in rd.at(at, e.id)]
+        if len(ds) == 1 and ds[0].value is not None:
+          d = ds[0]
+          if d.index in (0, 1) and unparse(d.value, 0) == 'self._parameter_config.bounds':
+            return d.index
+          if d.index is None and d.kind == 'assign':
+            return bound_index(d.value, g.nodes[d.node_id])
+      return None
+
+    def value_defs(e: ast.AST, at, seen) -> List:
+      """Definitions (Def, node) of the numeric value inside wrappers float()/ParameterValue()."""
+      out = []
+      for nm in flow.names_in(e):
+        if nm in ('pyvizier', 'np', 'float', 'self', 'int'):
+          continue
+        for d in rd.at(at, nm):
+          if (d.name, d.node_id) in seen:
+            continue
+          seen.add((d.name, d.node_id))
+          out.append(d)
+      return out
+
+    # path-sensitive in the clipping flag: on the sub-graph where `self._should_clip` is true, every definition that
+    # reaches the return must be an np.clip with both original bounds
+    n_on = g_on.node_of(n.ast)
+    defs_on = []
+    seen_on = set()
     for nm in flow.names_in(v):
-      for d in rd.at(n, nm):
-        if d.kind == 'assign' and isinstance(d.value, ast.Call) and (dotted(d.value.func) or '').endswith('clip'):
-          clip_defs.append(d)
-    ok = False
+      if nm in ('pyvizier', 'np', 'float', 'self', 'int'):
+        continue
+      for d in rd_on.at(n_on, nm):
+        if (d.name, d.node_id) not in seen_on:
+          seen_on.add((d.name, d.node_id))
+          defs_on.append(d)
+    ok = bool(defs_on)
     why = 'the returned value is neither clipped nor taken from feasible_values'
-    if clip_defs:
-      c = clip_defs[0].value
-      a = [unparse(x, 0) for x in c.args[1:3]]
-      both = len(a) == 2 and 'self._parameter_config.bounds[0]' in a[0] and 'self._parameter_config.bounds[1]' in a[1]
-      cn = g.nodes[clip_defs[0].node_id]
-      conds = [(unparse(x, 0), pol) for x, pol in g.controlling_conditions(cn)]
-      only_flag = all(t in ('self._should_clip',) or 'ParameterType.DOUBLE' in t or 'isfinite' in t or '_converts_to_parameter' in t for t, _ in conds)
-      ok = both and only_flag
-      why = ('np.clip does not use both bounds of the original parameter config (`self._parameter_config.bounds[0]`, `[1]`): '
-             f'got {a}' if not both else f'clipping is skipped under extra conditions {conds}')
+    for d in defs_on:
+      if d.kind == 'param':
+        ok, why = False, 'the raw input value can reach the return without passing np.clip while should_clip is set'
+        continue
+      dn = g_on.nodes[d.node_id]
+      val = d.value
+      if isinstance(val, ast.Call) and (dotted(val.func) or '').endswith('clip') and len(val.args) >= 3:
+        lo, hi = bound_index(val.args[1], g.node_of(dn.ast)), bound_index(val.args[2], g.node_of(dn.ast))
+        if (lo, hi) != (0, 1):
+          ok = False
+          why = ('np.clip does not use both bounds of the original parameter config (`self._parameter_config.bounds[0]`, `[1]`): '
+                 f'got [{unparse(val.args[1], 40)}, {unparse(val.args[2], 40)}]')
+      else:
+        ok, why = False, f'`{unparse(dn.ast, 60)}` reaches the return unclipped although should_clip is set'
     ctx.check(ok, 'R3', inst, n.ast, 'clipped with both bounds of the original config (when should_clip)', why +
               ': the decoder can return a value outside the parameter\'s domain', construct=f'return {txt}', func=fi.qualname)
   if n_ret < 4:
